@@ -73,7 +73,7 @@ func CopyHeaders(proxyReq, originalReq *http.Request) {
 
 	// Via header tracks the request path through proxies (RFC 7230 section 5.7.1)
 	// we append to existing via headers to maintain the proxy chain
-	if via := originalReq.Header.Get(constants.HeaderVia); via != "" {
+	if via := joinedHeaderValues(originalReq.Header, constants.HeaderVia); via != "" {
 		proxyReq.Header.Set(constants.HeaderVia, via+", "+GetViaHeader())
 	} else {
 		proxyReq.Header.Set(constants.HeaderVia, GetViaHeader())
@@ -81,7 +81,7 @@ func CopyHeaders(proxyReq, originalReq *http.Request) {
 
 	// SHERPA-44: Ensure X-Real-IP header is set
 	// Add real IP tracking headers
-	if realIP := originalReq.Header.Get(constants.HeaderXRealIP); realIP == "" {
+	if realIP := joinedHeaderValues(originalReq.Header, constants.HeaderXRealIP); realIP == "" {
 		if ip := extractClientIP(originalReq); ip != "" {
 			proxyReq.Header.Set(constants.HeaderXRealIP, ip)
 		}
@@ -91,11 +91,25 @@ func CopyHeaders(proxyReq, originalReq *http.Request) {
 	updateForwardedHeaders(proxyReq, originalReq)
 }
 
+// joinedHeaderValues returns every value the client sent for a header, across all of its
+// lines, as one comma-separated list. Header.Get only sees the first line, which loses the
+// rest of a proxy chain (or the whole chain when the first line is empty) once we Set.
+func joinedHeaderValues(h http.Header, name string) string {
+	values := h.Values(name)
+	nonEmpty := make([]string, 0, len(values))
+	for _, v := range values {
+		if v = strings.TrimSpace(v); v != "" {
+			nonEmpty = append(nonEmpty, v)
+		}
+	}
+	return strings.Join(nonEmpty, ", ")
+}
+
 // SHERPA-81: Update X-Forwarded-* headers in request
 // updateForwardedHeaders updates X-Forwarded-* headers
 func updateForwardedHeaders(proxyReq, originalReq *http.Request) {
 	// X-Forwarded-For
-	if forwarded := originalReq.Header.Get(constants.HeaderXForwardedFor); forwarded != "" {
+	if forwarded := joinedHeaderValues(originalReq.Header, constants.HeaderXForwardedFor); forwarded != "" {
 		if clientIP := extractClientIP(originalReq); clientIP != "" {
 			proxyReq.Header.Set(constants.HeaderXForwardedFor, forwarded+", "+clientIP)
 		} else {
@@ -106,7 +120,7 @@ func updateForwardedHeaders(proxyReq, originalReq *http.Request) {
 	}
 
 	// X-Forwarded-Proto
-	if proto := originalReq.Header.Get(constants.HeaderXForwardedProto); proto == "" {
+	if proto := joinedHeaderValues(originalReq.Header, constants.HeaderXForwardedProto); proto == "" {
 		if originalReq.TLS != nil {
 			proxyReq.Header.Set(constants.HeaderXForwardedProto, constants.ProtocolHTTPS)
 		} else {
@@ -115,7 +129,7 @@ func updateForwardedHeaders(proxyReq, originalReq *http.Request) {
 	}
 
 	// X-Forwarded-Host
-	if host := originalReq.Header.Get(constants.HeaderXForwardedHost); host == "" && originalReq.Host != "" {
+	if host := joinedHeaderValues(originalReq.Header, constants.HeaderXForwardedHost); host == "" && originalReq.Host != "" {
 		proxyReq.Header.Set(constants.HeaderXForwardedHost, originalReq.Host)
 	}
 }
